@@ -90,6 +90,216 @@ Section Parse.
         end
     end.
 
+  (* a sequence of n terms read with the element parser p (own fuel: every element consumes at least one byte) *)
+  Fixpoint seq_with (p : bytes -> pres) (k : nat) (n : N) (bs : bytes) : sres :=
+    if n =? 0 then SOk [] bs else
+    match k with
+    | O => SErr KFuel
+    | S k' =>
+        match p bs with
+        | PErr e => SErr e
+        | POk t r => match seq_with p k' (N.pred n) r with
+                     | SOk l r' => SOk (t :: l) r'
+                     | SErr e => SErr e
+                     end
+        end
+    end.
+
+  (* what each parser does after the tag byte, given the parser for nested terms *)
+  Definition parse_body (self : bytes -> pres) (pid : N) (r0 : bytes) : pres :=
+    match pid with
+    | 1 => match rd 1 r0 with Some (v, r) => POk (TInt (Z.of_N v)) r | None => PErr KEof end
+    | 2 => match rd 4 r0 with Some (v, r) => POk (TInt (to_i32 v)) r | None => PErr KEof end
+    | 3 => match takeN 31 r0 with
+           | None => PErr KEof
+           | Some (txt, r) =>
+               if utf8_valid txt then
+                 match d_float_text cfg (trim_nul txt) with Some b => POk (TFloat b) r | None => PErr KFloat end
+               else PErr KChar
+           end
+    | 4 => match rd 8 r0 with Some (v, r) => POk (TFloat v) r | None => PErr KEof end
+    | 5 => parse_atom_latin1 2 r0
+    | 6 => parse_atom_bytes 2 r0
+    | 7 => parse_atom_bytes 1 r0
+    | 8 => parse_atom_latin1 1 r0
+    | 9 => match rd 1 r0 with
+           | None => PErr KEof
+           | Some (n, r) => if max_tuple_size <? n then PErr KTooLarge else
+               match seq_with self (S (length r)) n r with SOk l r' => POk (TTuple l) r' | SErr e => PErr e end
+           end
+    | 10 => match rd 4 r0 with
+            | None => PErr KEof
+            | Some (n, r) => if max_tuple_size <? n then PErr KTooLarge else
+                match seq_with self (S (length r)) n r with SOk l r' => POk (TTuple l) r' | SErr e => PErr e end
+            end
+    | 11 => POk TNil r0
+    | 12 => match rd 2 r0 with
+            | None => PErr KEof
+            | Some (n, r) => match takeN n r with
+                             | Some (s, r') => POk (TList (map (fun b => TInt (Z.of_N b)) s)) r'
+                             | None => PErr KEof
+                             end
+            end
+    | 13 => match rd 4 r0 with
+            | None => PErr KEof
+            | Some (n, r) => if max_list_size <? n then PErr KTooLarge else
+                match seq_with self (S (length r)) n r with
+                | SErr e => PErr e
+                | SOk l r' =>
+                    match self r' with
+                    | PErr e => PErr e
+                    | POk TNil r'' => POk (TList l) r''
+                    | POk tl r'' => POk (TImproper l tl) r''
+                    end
+                end
+            end
+    | 14 => match rd 4 r0 with
+            | None => PErr KEof
+            | Some (n, r) => if max_binary_size <? n then PErr KTooLarge else
+                match takeN n r with Some (b, r') => POk (TBin b) r' | None => PErr KEof end
+            end
+    | 15 => match rd 4 r0 with
+            | None => PErr KEof
+            | Some (n, r) => if max_binary_size <? n then PErr KTooLarge else
+                match rd 1 r with
+                | None => PErr KEof
+                | Some (bits, r1) =>
+                    if (bits =? 0) || (8 <? bits) then PErr KVerify
+                    else if (n =? 0) && negb (bits =? 8) then PErr KVerify
+                    else match takeN n r1 with Some (b, r') => POk (TBitBin b bits) r' | None => PErr KEof end
+                end
+            end
+    | 16 => match rd 1 r0 with
+            | None => PErr KEof
+            | Some (n, r) => match rd 1 r with
+                | None => PErr KEof
+                | Some (sign, r1) => match takeN n r1 with
+                    | Some (d, r') => POk (TBig (negb (sign =? 0)) d) r' | None => PErr KEof end
+                end
+            end
+    | 17 => match rd 4 r0 with
+            | None => PErr KEof
+            | Some (n, r) => match rd 1 r with
+                | None => PErr KEof
+                | Some (sign, r1) => match takeN n r1 with
+                    | Some (d, r') => POk (TBig (negb (sign =? 0)) d) r' | None => PErr KEof end
+                end
+            end
+    | 18 => match rd 4 r0 with
+            | None => PErr KEof
+            | Some (n, r) => if max_map_size <? n then PErr KTooLarge else
+                match seq_with self (S (length r)) (2 * n) r with
+                | SErr e => PErr e
+                | SOk l r' => POk (TMap (fold_left (fun m kv => d_kinsert cfg (d_kcmp cfg) (fst kv) (snd kv) m) (pair_up l) [])) r'
+                end
+            end
+    | 19 => atom_of (self r0) (fun node r =>
+              match rd 4 r with None => PErr KEof | Some (id, r1) =>
+              match rd 4 r1 with None => PErr KEof | Some (ser, r2) =>
+              match rd 4 r2 with None => PErr KEof | Some (cr, r3) =>
+                POk (TPid {| pnode := node; pnum := id; pserial := ser; pcreation := cr; ploc := None |}) r3 end end end)
+    | 20 => match rd 2 r0 with
+            | None => PErr KEof
+            | Some (n, r) => atom_of (self r) (fun node r1 =>
+                match rd 4 r1 with None => PErr KEof | Some (cr, r2) =>
+                match rd_ids (S (length r2)) n r2 with None => PErr KEof | Some (ids, r3) =>
+                  POk (TRef node cr ids None) r3 end end)
+            end
+    | 21 => atom_of (self r0) (fun node r =>
+              match rd 8 r with None => PErr KEof | Some (id, r1) =>
+              match rd 4 r1 with None => PErr KEof | Some (cr, r2) => POk (TPort node id cr None) r2 end end)
+    | 22 => atom_of (self r0) (fun m r =>
+              atom_of (self r) (fun fn r1 =>
+                match self r1 with
+                | PErr e => PErr e
+                | POk (TInt a) r2 => if ((0 <=? a) && (a <=? 255))%Z then POk (TExtFun m fn (Z.to_N a)) r2 else PErr KTag
+                | POk _ _ => PErr KTag
+                end))
+    | 23 => match rd 4 r0 with None => PErr KEof | Some (_, r) =>
+            match rd 1 r with None => PErr KEof | Some (ar, r1) =>
+            match takeN 16 r1 with None => PErr KEof | Some (uniq, r2) =>
+            match rd 4 r2 with None => PErr KEof | Some (idx, r3) =>
+            match rd 4 r3 with None => PErr KEof | Some (nf, r4) =>
+              atom_of (self r4) (fun m r5 =>
+                match self r5 with
+                | PErr e => PErr e
+                | POk (TInt oi) r6 => if (oi <? 0)%Z then PErr KTag else
+                  match self r6 with
+                  | PErr e => PErr e
+                  | POk (TInt ou) r7 => if (ou <? 0)%Z then PErr KTag else
+                    match self r7 with
+                    | PErr e => PErr e
+                    | POk (TPid p) r8 =>
+                        match seq_with self (S (length r8)) nf r8 with
+                        | SErr e => PErr e
+                        | SOk fr r9 => POk (TIntFun ar uniq idx nf m (Z.to_N oi mod 4294967296) (Z.to_N ou mod 4294967296) p fr) r9
+                        end
+                    | POk _ _ => PErr KTag
+                    end
+                  | POk _ _ => PErr KTag
+                  end
+                | POk _ _ => PErr KTag
+                end)
+            end end end end end
+    | 24 => PErr KTag
+    | 25 => match rd 4 r0 with
+            | None => PErr KEof
+            | Some (usz, r) => if max_binary_size <? usz then PErr KTooLarge else
+                match d_inflate cfg r with
+                | None => PErr KFail
+                | Some (plain, consumed) =>
+                    if usz <? len plain then PErr KFail else
+                    match self plain with
+                    | POk t _ => match takeN consumed r with Some (_, r') => POk t r' | None => PErr KFail end
+                    | PErr _ => PErr KFail
+                    end
+                end
+            end
+    | 26 => atom_of (self r0) (fun node r =>
+              match rd 4 r with None => PErr KEof | Some (id, r1) =>
+              match rd 1 r1 with None => PErr KEof | Some (cr, r2) => POk (TRef node cr [id] None) r2 end end)
+    | 27 => atom_of (self r0) (fun node r =>
+              match rd 4 r with None => PErr KEof | Some (id, r1) =>
+              match rd 1 r1 with None => PErr KEof | Some (cr, r2) => POk (TPort node id cr None) r2 end end)
+    | 28 => atom_of (self r0) (fun node r =>
+              match rd 4 r with None => PErr KEof | Some (id, r1) =>
+              match rd 4 r1 with None => PErr KEof | Some (ser, r2) =>
+              match rd 1 r2 with None => PErr KEof | Some (cr, r3) =>
+                POk (TPid {| pnode := node; pnum := id; pserial := ser; pcreation := cr; ploc := None |}) r3 end end end)
+    | 29 => match rd 2 r0 with
+            | None => PErr KEof
+            | Some (n, r) => atom_of (self r) (fun node r1 =>
+                match rd 1 r1 with None => PErr KEof | Some (cr, r2) =>
+                match rd_ids (S (length r2)) n r2 with None => PErr KEof | Some (ids, r3) =>
+                  POk (TRef node cr ids None) r3 end end)
+            end
+    | 30 => match rd 8 r0 with
+            | None => PErr KEof
+            | Some (_, r) =>
+                match self r with
+                | PErr e => PErr e
+                | POk t r' =>
+                    (* start[..8 + nested_len] *)
+                    let raw := firstn (length r0 - length r') r0 in
+                    match t with
+                    | TPid p => POk (TPid {| pnode := pnode p; pnum := pnum p; pserial := pserial p;
+                                             pcreation := pcreation p; ploc := Some raw |}) r'
+                    | TPort n i c _ => POk (TPort n i c (Some raw)) r'
+                    | TRef n c ids _ => POk (TRef n c ids (Some raw)) r'
+                    | _ => POk t r'
+                    end
+                end
+            end
+    | 31 => match rd 1 r0 with
+            | None => PErr KEof
+            | Some (i, r) => match assocb i (d_cache cfg) with Some a => POk (TAtom a) r | None => PErr KTag end
+            end
+    | 32 => atom_of (self r0) (fun node r =>
+              match rd 4 r with None => PErr KEof | Some (id, r1) =>
+              match rd 4 r1 with None => PErr KEof | Some (cr, r2) => POk (TPort node id cr None) r2 end end)
+    | _ => PErr KTag
+    end.
+
   Fixpoint parse (fuel : nat) (bs : bytes) : pres :=
     match fuel with
     | O => PErr KFuel
@@ -99,215 +309,11 @@ Section Parse.
       | tag :: r0 =>
         match assoc tag (d_arms cfg) with
         | None => PErr KTag
-        | Some pid =>
-          match pid with
-          | 1 => match rd 1 r0 with Some (v, r) => POk (TInt (Z.of_N v)) r | None => PErr KEof end
-          | 2 => match rd 4 r0 with Some (v, r) => POk (TInt (to_i32 v)) r | None => PErr KEof end
-          | 3 => match takeN 31 r0 with
-                 | None => PErr KEof
-                 | Some (txt, r) =>
-                     if utf8_valid txt then
-                       match d_float_text cfg (trim_nul txt) with Some b => POk (TFloat b) r | None => PErr KFloat end
-                     else PErr KChar
-                 end
-          | 4 => match rd 8 r0 with Some (v, r) => POk (TFloat v) r | None => PErr KEof end
-          | 5 => parse_atom_latin1 2 r0
-          | 6 => parse_atom_bytes 2 r0
-          | 7 => parse_atom_bytes 1 r0
-          | 8 => parse_atom_latin1 1 r0
-          | 9 => match rd 1 r0 with
-                 | None => PErr KEof
-                 | Some (n, r) => if max_tuple_size <? n then PErr KTooLarge else
-                     match parse_seq f n r with SOk l r' => POk (TTuple l) r' | SErr e => PErr e end
-                 end
-          | 10 => match rd 4 r0 with
-                  | None => PErr KEof
-                  | Some (n, r) => if max_tuple_size <? n then PErr KTooLarge else
-                      match parse_seq f n r with SOk l r' => POk (TTuple l) r' | SErr e => PErr e end
-                  end
-          | 11 => POk TNil r0
-          | 12 => match rd 2 r0 with
-                  | None => PErr KEof
-                  | Some (n, r) => match takeN n r with
-                                   | Some (s, r') => POk (TList (map (fun b => TInt (Z.of_N b)) s)) r'
-                                   | None => PErr KEof
-                                   end
-                  end
-          | 13 => match rd 4 r0 with
-                  | None => PErr KEof
-                  | Some (n, r) => if max_list_size <? n then PErr KTooLarge else
-                      match parse_seq f n r with
-                      | SErr e => PErr e
-                      | SOk l r' =>
-                          match parse f r' with
-                          | PErr e => PErr e
-                          | POk TNil r'' => POk (TList l) r''
-                          | POk tl r'' => POk (TImproper l tl) r''
-                          end
-                      end
-                  end
-          | 14 => match rd 4 r0 with
-                  | None => PErr KEof
-                  | Some (n, r) => if max_binary_size <? n then PErr KTooLarge else
-                      match takeN n r with Some (b, r') => POk (TBin b) r' | None => PErr KEof end
-                  end
-          | 15 => match rd 4 r0 with
-                  | None => PErr KEof
-                  | Some (n, r) => if max_binary_size <? n then PErr KTooLarge else
-                      match rd 1 r with
-                      | None => PErr KEof
-                      | Some (bits, r1) =>
-                          if (bits =? 0) || (8 <? bits) then PErr KVerify
-                          else if (n =? 0) && negb (bits =? 8) then PErr KVerify
-                          else match takeN n r1 with Some (b, r') => POk (TBitBin b bits) r' | None => PErr KEof end
-                      end
-                  end
-          | 16 => match rd 1 r0 with
-                  | None => PErr KEof
-                  | Some (n, r) => match rd 1 r with
-                      | None => PErr KEof
-                      | Some (sign, r1) => match takeN n r1 with
-                          | Some (d, r') => POk (TBig (negb (sign =? 0)) d) r' | None => PErr KEof end
-                      end
-                  end
-          | 17 => match rd 4 r0 with
-                  | None => PErr KEof
-                  | Some (n, r) => match rd 1 r with
-                      | None => PErr KEof
-                      | Some (sign, r1) => match takeN n r1 with
-                          | Some (d, r') => POk (TBig (negb (sign =? 0)) d) r' | None => PErr KEof end
-                      end
-                  end
-          | 18 => match rd 4 r0 with
-                  | None => PErr KEof
-                  | Some (n, r) => if max_map_size <? n then PErr KTooLarge else
-                      match parse_seq f (2 * n) r with
-                      | SErr e => PErr e
-                      | SOk l r' => POk (TMap (fold_left (fun m kv => d_kinsert cfg (d_kcmp cfg) (fst kv) (snd kv) m) (pair_up l) [])) r'
-                      end
-                  end
-          | 19 => atom_of (parse f r0) (fun node r =>
-                    match rd 4 r with None => PErr KEof | Some (id, r1) =>
-                    match rd 4 r1 with None => PErr KEof | Some (ser, r2) =>
-                    match rd 4 r2 with None => PErr KEof | Some (cr, r3) =>
-                      POk (TPid {| pnode := node; pnum := id; pserial := ser; pcreation := cr; ploc := None |}) r3 end end end)
-          | 20 => match rd 2 r0 with
-                  | None => PErr KEof
-                  | Some (n, r) => atom_of (parse f r) (fun node r1 =>
-                      match rd 4 r1 with None => PErr KEof | Some (cr, r2) =>
-                      match rd_ids (S (length r2)) n r2 with None => PErr KEof | Some (ids, r3) =>
-                        POk (TRef node cr ids None) r3 end end)
-                  end
-          | 21 => atom_of (parse f r0) (fun node r =>
-                    match rd 8 r with None => PErr KEof | Some (id, r1) =>
-                    match rd 4 r1 with None => PErr KEof | Some (cr, r2) => POk (TPort node id cr None) r2 end end)
-          | 22 => atom_of (parse f r0) (fun m r =>
-                    atom_of (parse f r) (fun fn r1 =>
-                      match parse f r1 with
-                      | PErr e => PErr e
-                      | POk (TInt a) r2 => if ((0 <=? a) && (a <=? 255))%Z then POk (TExtFun m fn (Z.to_N a)) r2 else PErr KTag
-                      | POk _ _ => PErr KTag
-                      end))
-          | 23 => match rd 4 r0 with None => PErr KEof | Some (_, r) =>
-                  match rd 1 r with None => PErr KEof | Some (ar, r1) =>
-                  match takeN 16 r1 with None => PErr KEof | Some (uniq, r2) =>
-                  match rd 4 r2 with None => PErr KEof | Some (idx, r3) =>
-                  match rd 4 r3 with None => PErr KEof | Some (nf, r4) =>
-                    atom_of (parse f r4) (fun m r5 =>
-                      match parse f r5 with
-                      | PErr e => PErr e
-                      | POk (TInt oi) r6 => if (oi <? 0)%Z then PErr KTag else
-                        match parse f r6 with
-                        | PErr e => PErr e
-                        | POk (TInt ou) r7 => if (ou <? 0)%Z then PErr KTag else
-                          match parse f r7 with
-                          | PErr e => PErr e
-                          | POk (TPid p) r8 =>
-                              match parse_seq f nf r8 with
-                              | SErr e => PErr e
-                              | SOk fr r9 => POk (TIntFun ar uniq idx nf m (Z.to_N oi mod 4294967296) (Z.to_N ou mod 4294967296) p fr) r9
-                              end
-                          | POk _ _ => PErr KTag
-                          end
-                        | POk _ _ => PErr KTag
-                        end
-                      | POk _ _ => PErr KTag
-                      end)
-                  end end end end end
-          | 24 => PErr KTag
-          | 25 => match rd 4 r0 with
-                  | None => PErr KEof
-                  | Some (usz, r) => if max_binary_size <? usz then PErr KTooLarge else
-                      match d_inflate cfg r with
-                      | None => PErr KFail
-                      | Some (plain, consumed) =>
-                          if usz <? len plain then PErr KFail else
-                          match parse f plain with
-                          | POk t _ => match takeN consumed r with Some (_, r') => POk t r' | None => PErr KFail end
-                          | PErr _ => PErr KFail
-                          end
-                      end
-                  end
-          | 26 => atom_of (parse f r0) (fun node r =>
-                    match rd 4 r with None => PErr KEof | Some (id, r1) =>
-                    match rd 1 r1 with None => PErr KEof | Some (cr, r2) => POk (TRef node cr [id] None) r2 end end)
-          | 27 => atom_of (parse f r0) (fun node r =>
-                    match rd 4 r with None => PErr KEof | Some (id, r1) =>
-                    match rd 1 r1 with None => PErr KEof | Some (cr, r2) => POk (TPort node id cr None) r2 end end)
-          | 28 => atom_of (parse f r0) (fun node r =>
-                    match rd 4 r with None => PErr KEof | Some (id, r1) =>
-                    match rd 4 r1 with None => PErr KEof | Some (ser, r2) =>
-                    match rd 1 r2 with None => PErr KEof | Some (cr, r3) =>
-                      POk (TPid {| pnode := node; pnum := id; pserial := ser; pcreation := cr; ploc := None |}) r3 end end end)
-          | 29 => match rd 2 r0 with
-                  | None => PErr KEof
-                  | Some (n, r) => atom_of (parse f r) (fun node r1 =>
-                      match rd 1 r1 with None => PErr KEof | Some (cr, r2) =>
-                      match rd_ids (S (length r2)) n r2 with None => PErr KEof | Some (ids, r3) =>
-                        POk (TRef node cr ids None) r3 end end)
-                  end
-          | 30 => match rd 8 r0 with
-                  | None => PErr KEof
-                  | Some (_, r) =>
-                      match parse f r with
-                      | PErr e => PErr e
-                      | POk t r' =>
-                          (* start[..8 + nested_len] *)
-                          let raw := firstn (length r0 - length r') r0 in
-                          match t with
-                          | TPid p => POk (TPid {| pnode := pnode p; pnum := pnum p; pserial := pserial p;
-                                                   pcreation := pcreation p; ploc := Some raw |}) r'
-                          | TPort n i c _ => POk (TPort n i c (Some raw)) r'
-                          | TRef n c ids _ => POk (TRef n c ids (Some raw)) r'
-                          | _ => POk t r'
-                          end
-                      end
-                  end
-          | 31 => match rd 1 r0 with
-                  | None => PErr KEof
-                  | Some (i, r) => match assocb i (d_cache cfg) with Some a => POk (TAtom a) r | None => PErr KTag end
-                  end
-          | 32 => atom_of (parse f r0) (fun node r =>
-                    match rd 4 r with None => PErr KEof | Some (id, r1) =>
-                    match rd 4 r1 with None => PErr KEof | Some (cr, r2) => POk (TPort node id cr None) r2 end end)
-          | _ => PErr KTag
-          end
+        | Some pid => parse_body (parse f) pid r0
         end
       end
-    end
-  with parse_seq (fuel : nat) (n : N) (bs : bytes) : sres :=
-    match fuel with
-    | O => SErr KFuel
-    | S f =>
-      if n =? 0 then SOk [] bs else
-      match parse f bs with
-      | PErr e => SErr e
-      | POk t r => match parse_seq f (N.pred n) r with
-                   | SOk l r' => SOk (t :: l) r'
-                   | SErr e => SErr e
-                   end
-      end
     end.
+
 End Parse.
 
 (* ---------- entry points ---------- *)
